@@ -40,6 +40,8 @@ vector<string> ApplicationTools::matchingParameters(const string& pattern, const
     if (pos1 != 0)
       flag = false;
     pos1 += g.length();
+    if (!stj.hasMoreToken() && parn != g)
+      flag = false; // A pattern without wildcard matches the identical name only.
     while (flag && stj.hasMoreToken())
     {
       g = stj.nextToken();
@@ -74,6 +76,8 @@ vector<string> ApplicationTools::matchingParameters(const string& pattern, vecto
     if (pos1 != 0)
       flag = false;
     pos1 += g.length();
+    if (!stj.hasMoreToken() && parn != g)
+      flag = false; // A pattern without wildcard matches the identical name only.
     while (flag && stj.hasMoreToken())
     {
       g = stj.nextToken();
